@@ -8,6 +8,7 @@ Case == [backend |-> Backend, hist |-> hist, crash |-> crashed, rows |-> rows, l
          logOk |-> logOk, alog |-> alog,
          base_len |-> Len(base.log),
          after_len |-> IF hist[Len(hist)][1] \in {"compact", "forcemerge"} THEN Len(Compacted(base.log))
+                       ELSE IF hist[Len(hist)][1] = "merge" THEN Len(base.log) + 2
                        ELSE Len(base.log) + 1,
          opens |-> logOk /\ vaultOk,
          logBeforeOrAfter |-> LogBeforeOrAfter,
